@@ -212,8 +212,11 @@ func HarnessC17Led() {
 	d.mapping = int(verifrt.U8("st.mapping") % 2)
 	heldNote, heldOn := verifrt.U8("st.held.note"), verifrt.Bool("st.held.on")
 	verifrt.Assume(heldNote <= 127)
+	// the held note may have been started on another channel (channel changed or channel offset): it still sounds
+	heldCh := verifrt.U8("st.held.channel")
+	verifrt.Assume(heldCh <= 15)
 	if heldOn {
-		d.noteTracker[evdev.KEY_A] = [2]byte{heldNote, d.channel}
+		d.noteTracker[evdev.KEY_A] = [2]byte{heldNote, heldCh}
 	}
 	var extCh [2]uint8
 	var extNote [2]uint8
@@ -282,7 +285,9 @@ func HarnessC17Led() {
 		k := name - 1
 		x := int(notes[k]) + offset
 		if x < 0 || x > 127 {
-			verifrt.Cover("C17: mapped key out of range")
+			if drop&14 == 0 { // vacuity guards only where every note key has an LED
+				verifrt.Cover("C17: mapped key out of range")
+			}
 			verifrt.Assert(sameColor(got, colors.Unavailable), "C17: a mapped key whose pitch is out of MIDI range shows the 'unavailable' colour")
 			break
 		}
@@ -315,7 +320,9 @@ func HarnessC17Led() {
 		}
 		switch {
 		case fromKeyboard:
-			verifrt.Cover("C17: key at a pitch sounding from the keyboard")
+			if drop&14 == 0 {
+				verifrt.Cover("C17: key at a pitch sounding from the keyboard")
+			}
 			verifrt.Assert(sameColor(got, colors.Active), "C17: keys at pitches sounding from the keyboard show the active colour")
 		case onCurrent:
 			verifrt.Cover("C17: pitch sounding on MIDI input, current channel")
